@@ -53,12 +53,12 @@ Inductive c12case :=
 Definition check (c : c12case) : verdict :=
   match c with
   | KScope s hay needle impl =>
-      V (Bool.eqb (scope_match s hay needle) impl)
+      V (corr_b (Bool.eqb (scope_match s hay needle) impl))
         (if Bool.eqb (scope_spec_b s hay needle) impl then None else Some "scope_strategy")
   | KExactAud hs ns impl =>
-      V (Bool.eqb (exact_audience hs ns) impl)
+      V (corr_b (Bool.eqb (exact_audience hs ns) impl))
         (if Bool.eqb (forallb (fun n => mem n hs) ns) impl then None else Some "exact_audience")
   | KDefAud hs ns impl =>
-      V (Bool.eqb (default_audience hs ns) impl)
+      V (corr_b (Bool.eqb (default_audience hs ns) impl))
         (if Bool.eqb (default_aud_spec_b hs ns) impl then None else Some "default_audience")
   end.
